@@ -25,6 +25,11 @@
   the parent: `C20_former_F13c_witness`.  The column-0 corollaries are kept under
   their old names `C20_window_prev_partial`, `C20_window_prevLineEnd_partial`.
 
+  Nested windows (`C20_window_of_window`): a window cut out of a window, or out of a
+  source that was built over the outer bytes with `with_start_position`, answers
+  exactly like the window cut out of the document, so all of the above holds for
+  windows of windows as well.
+
   Lean: `Fam.Window.model` (the observation the differential driver compares)
   against `Fam.Window.ofSpec (Spec.windowSpec …)`, field by field.  The window is
   `t = wa ++ wmid ++ wz`; an inner position is the cut `(wa ++ pre') | (suf' ++ wz)`
@@ -32,6 +37,7 @@
   with `wmid = a' ++ smid ++ z'`.
 -/
 import TephraProofs.WindowPrev
+import TephraProofs.WindowNested
 
 namespace Tephra.Props
 open Tephra Tephra.Spec Tephra.LinesPf
@@ -342,6 +348,98 @@ example :
   rw [this]
   simp [navSpec, keepIfIn, curLinePre, lbLen]
   simp [canon, canonFrom, linesOf, breakAt, lbCodes, stripCodes, colWidth, bytes, Pos.zero]
+
+/-- A window of a window is the window of the document.  Cut the document
+`oa ++ (a2 ++ wmid ++ z2) ++ oz` at four aligned character boundaries.  Take the outer span
+(over `a2 ++ wmid ++ z2`) either as `parent.clipped(outer)` (route `c`) or as a fresh source over
+the outer bytes given `with_start_position(outer.start())` (any other route), and clip the inner
+span (over `wmid`) out of THAT.  The resulting window — and therefore every observation the window
+family makes of it: text, start, end, full span, the six navigation answers at `p`, `widen_to_line`
+and `split_lines` of `sub` — is exactly the one obtained by clipping the inner span out of the
+document directly (`Fam.Window.model`); in particular the nested clip does not panic.  Hence a
+window cut out of a window, or out of a source built with `with_start_position`, answers exactly
+like the window cut out of the document, and every C20 theorem about `model` above holds for
+nested windows.  Every line-ending style, tab width and character widths; unbounded in the text;
+any position `p` and span `sub`. -/
+theorem C20_window_of_window (m : Metrics) (_htab : 1 ≤ m.tab) (oa a2 wmid z2 oz : Text)
+    (hwf : Text.WF (oa ++ (a2 ++ wmid ++ z2) ++ oz))
+    (h1 : aligned m oa ((a2 ++ wmid ++ z2) ++ oz) = true)
+    (h2 : aligned m (oa ++ a2) (wmid ++ z2 ++ oz) = true)
+    (h3 : aligned m (oa ++ a2 ++ wmid) (z2 ++ oz) = true)
+    (h4 : aligned m (oa ++ (a2 ++ wmid ++ z2)) oz = true)
+    (route : Char) (p : Pos) (sub : Span) :
+    let t : Text := oa ++ (a2 ++ wmid ++ z2) ++ oz
+    let outer : Span := ⟨canon m oa, canon m (oa ++ (a2 ++ wmid ++ z2))⟩
+    let w : Span := ⟨canon m (oa ++ a2), canon m (oa ++ a2 ++ wmid)⟩
+    Fam.Window.modelNested m t route outer w p sub = Fam.Window.model m t w p sub :=
+  modelNested_eq_model m oa a2 wmid z2 oz hwf h1 h2 h3 h4 route p sub
+
+/-- The nested clip itself: out of a source that starts at the canonical position of `oa`, the
+span between two aligned cuts yields the inner window at the span's start (no panic). -/
+theorem C20_clipped_nested (m : Metrics) (_htab : 1 ≤ m.tab) (oa a2 wmid z2 oz : Text)
+    (hwf : Text.WF (oa ++ (a2 ++ wmid ++ z2) ++ oz))
+    (h1 : aligned m oa ((a2 ++ wmid ++ z2) ++ oz) = true)
+    (h2 : aligned m (oa ++ a2) (wmid ++ z2 ++ oz) = true)
+    (h3 : aligned m (oa ++ a2 ++ wmid) (z2 ++ oz) = true)
+    (h4 : aligned m (oa ++ (a2 ++ wmid ++ z2)) oz = true) :
+    Source.clipped ⟨a2 ++ wmid ++ z2, m, canon m oa⟩
+        ⟨canon m (oa ++ a2), canon m (oa ++ a2 ++ wmid)⟩ =
+      .ok ⟨wmid, m, canon m (oa ++ a2)⟩ :=
+  clipped_nested m oa a2 wmid z2 oz hwf h1 h2 h3 h4
+
+/-- Non-vacuity for `C20_window_of_window`: LF, tab 4, document `a⏎bc⏎d`, outer window `bc⏎`
+(starting on line 1), inner window `c` (starting mid-line at ⟨3, 1, 1⟩).  The hypotheses hold, and
+on both routes the nested observation is the (defined) observation of the document's window. -/
+example :
+    let m : Metrics := ⟨.lf, 4⟩
+    let oa : Text := [⟨97, 1, 1⟩, ⟨10, 1, 0⟩]
+    let a2 : Text := [⟨98, 1, 1⟩]
+    let wmid : Text := [⟨99, 1, 1⟩]
+    let z2 : Text := [⟨10, 1, 0⟩]
+    let oz : Text := [⟨100, 1, 1⟩]
+    let t : Text := oa ++ (a2 ++ wmid ++ z2) ++ oz
+    let outer : Span := ⟨canon m oa, canon m (oa ++ (a2 ++ wmid ++ z2))⟩
+    let w : Span := ⟨canon m (oa ++ a2), canon m (oa ++ a2 ++ wmid)⟩
+    1 ≤ m.tab ∧ Text.WF t ∧
+      aligned m oa ((a2 ++ wmid ++ z2) ++ oz) = true ∧
+      aligned m (oa ++ a2) (wmid ++ z2 ++ oz) = true ∧
+      aligned m (oa ++ a2 ++ wmid) (z2 ++ oz) = true ∧
+      aligned m (oa ++ (a2 ++ wmid ++ z2)) oz = true ∧
+      outer = ⟨⟨2, 1, 0⟩, ⟨5, 2, 0⟩⟩ ∧ w = ⟨⟨3, 1, 1⟩, ⟨4, 1, 2⟩⟩ ∧
+      ∀ (p : Pos) (sub : Span), ∃ o,
+        Fam.Window.modelNested m t 'c' outer w p sub = .ok o ∧
+        Fam.Window.modelNested m t 's' outer w p sub = .ok o ∧
+        Fam.Window.model m t w p sub = .ok o ∧ o.text = .ok wmid ∧ o.start = .ok ⟨3, 1, 1⟩ := by
+  have hwf : Text.WF ([⟨97, 1, 1⟩, ⟨10, 1, 0⟩] ++ ([⟨98, 1, 1⟩] ++ [⟨99, 1, 1⟩] ++ [⟨10, 1, 0⟩]) ++
+      ([⟨100, 1, 1⟩] : Text)) := by
+    intro c hc; simp at hc; rcases hc with rfl | rfl | rfl | rfl | rfl | rfl <;> decide
+  have hc0 : canon ⟨.lf, 4⟩ [⟨97, 1, 1⟩, ⟨10, 1, 0⟩] = ⟨2, 1, 0⟩ := by
+    simp [canon, canonFrom, linesOf, breakAt, lbCodes, stripCodes, colWidth, bytes, Pos.zero]
+  have hc1 : canon ⟨.lf, 4⟩ ([⟨97, 1, 1⟩, ⟨10, 1, 0⟩] ++ [⟨98, 1, 1⟩]) = ⟨3, 1, 1⟩ := by
+    simp [canon, canonFrom, linesOf, breakAt, lbCodes, stripCodes, colWidth, bytes, Pos.zero]
+  have hc2 : canon ⟨.lf, 4⟩ ([⟨97, 1, 1⟩, ⟨10, 1, 0⟩] ++ [⟨98, 1, 1⟩] ++ [⟨99, 1, 1⟩]) =
+      ⟨4, 1, 2⟩ := by
+    simp [canon, canonFrom, linesOf, breakAt, lbCodes, stripCodes, colWidth, bytes, Pos.zero]
+  have hc3 : canon ⟨.lf, 4⟩ ([⟨97, 1, 1⟩, ⟨10, 1, 0⟩] ++
+      ([⟨98, 1, 1⟩] ++ [⟨99, 1, 1⟩] ++ [⟨10, 1, 0⟩])) = ⟨5, 2, 0⟩ := by
+    simp [canon, canonFrom, linesOf, breakAt, lbCodes, stripCodes, colWidth, bytes, Pos.zero]
+  refine ⟨by decide, hwf, by decide, by decide, by decide, by decide, by rw [hc0, hc3],
+    by rw [hc1, hc2], ?_⟩
+  intro p sub
+  have hN := fun r => C20_window_of_window ⟨.lf, 4⟩ (by decide) [⟨97, 1, 1⟩, ⟨10, 1, 0⟩]
+    [⟨98, 1, 1⟩] [⟨99, 1, 1⟩] [⟨10, 1, 0⟩] [⟨100, 1, 1⟩] hwf (by decide) (by decide) (by decide)
+    (by decide) r p sub
+  have et : [⟨97, 1, 1⟩, ⟨10, 1, 0⟩] ++ ([⟨98, 1, 1⟩] ++ [⟨99, 1, 1⟩] ++ [⟨10, 1, 0⟩]) ++
+      ([⟨100, 1, 1⟩] : Text) =
+      ([⟨97, 1, 1⟩, ⟨10, 1, 0⟩] ++ [⟨98, 1, 1⟩]) ++ [⟨99, 1, 1⟩] ++ ([⟨10, 1, 0⟩] ++ [⟨100, 1, 1⟩]) := by
+    simp
+  have hM := window_model_eq ⟨.lf, 4⟩ ([⟨97, 1, 1⟩, ⟨10, 1, 0⟩] ++ [⟨98, 1, 1⟩]) [⟨99, 1, 1⟩]
+    ([⟨10, 1, 0⟩] ++ [⟨100, 1, 1⟩]) (by rw [← et]; exact hwf) (by decide) (by decide) p sub
+  rw [← et] at hM
+  refine ⟨_, ?_, ?_, hM, rfl, ?_⟩
+  · rw [← hM]; exact hN 'c'
+  · rw [← hM]; exact hN 's'
+  · simp only [winObs, Source.startPosition, hc1]
 
 /-- Owned / borrowed round trip: a source text is determined by its text, metrics and start
 offset, so every window answer is the same for two sources agreeing on these three. -/
